@@ -59,7 +59,8 @@ CHECKS['C10'] = dict(
 CHECKS['C11'] = dict(
     level='fault_enumeration', ref='DESIGN.md 6 (C11), 4.7',
     text='Real process death: each crash point re-executes a seeded trace (store history, batch, NSGA-II / eps-MOEA / '
-         'OMOPSO / sweep run; serial and 2-3 simulated workers) in a forked child that _exits at the k-th Python-level '
+         'OMOPSO / sweep run; serial and 2-3 simulated workers; serial traces may meet a foreign lock holder that outlasts '
+         'the busy time-out, so the retry path runs before the crash) in a forked child that _exits at the k-th Python-level '
          'event or - via an LD_PRELOAD shim - at entry of the k-th file-mutating libc call on the store directory '
          '(torn page-crossing writes in the thorough tier); a fresh child then opens the directory with a read-mode '
          'view. All points of each listed trace are enumerated (T measured by un-armed runs), so for those traces the '
